@@ -65,8 +65,8 @@ def o_c08(cimp, ctx):
     ill = graph_illformed(list(tasks.values()))
     if ill and cimp["exit"] != 4:
         probs.append((f"graph error ({ill}) reported with exit code {cimp['exit']} instead of the graph phase code 4",
-                      ("F3",) if ill == "after_cycle" else ()))
-    if cimp["exit"] not in (0, 1) or ill:
+                      ("F1",) if ill == "after_cycle_f1" else ()))
+    if cimp["exit"] not in (0, 1) or (ill and ill != "after_cycle_f1"):
         return probs
     rep = cimp["reports"]
     ids = [t for t, _ in rep]
@@ -259,11 +259,17 @@ def graph_illformed(tasks):
     if not nx.is_directed_acyclic_graph(g):
         return "cycle"
     up = declared_upstream(tasks)
+    f1 = after_only_pairs(tasks)
+    g2 = g.copy()
     for t, us in up.items():
         for u in us:
             g.add_edge(("t", u), ("t", t))
-    if not nx.is_directed_acyclic_graph(g):
+            if (u, t) not in f1:
+                g2.add_edge(("t", u), ("t", t))
+    if not nx.is_directed_acyclic_graph(g2):
         return "after_cycle"
+    if not nx.is_directed_acyclic_graph(g):
+        return "after_cycle_f1"      # closed only through an `after` edge to a product-less task (F1: no edge exists)
     return None
 
 
@@ -273,7 +279,10 @@ def o_c09(cimp, ctx):
     ill = graph_illformed(tasks)
     prev_db = ctx["prev"][-1][1]["db"] if ctx["prev"] else set()
     if ill:
-        fid = ("F3",) if ill == "after_cycle" else ()
+        fid = ("F1",) if ill == "after_cycle_f1" else ()
+        if ill == "after_cycle_f1" and cimp["exit"] != 4:
+            probs.append(("a cycle closed through 'after' on a task without products is not detected", fid))
+            return probs
         if cimp["exit"] != 4:
             probs.append((f"ill-formed graph ({ill}) ended with exit code {cimp['exit']} instead of 4", fid))
         if cimp["log"]:
